@@ -1,0 +1,6 @@
+//go:build !verif
+
+package reader
+
+// verifYield is a no-op unless built with the verif tag (see verif_on.go).
+func verifYield(point string, channel string, collectionID int64) {}
